@@ -26,7 +26,7 @@ TECHNIQUE = ("fault enumeration + fuzzing: for base datagrams of the reference a
              "atheris campaigns in the thorough tier. Oracle: CPU time and resident-memory growth bounded by a stated multiple of the "
              "datagram size, and the same client / listener handles the next valid exchange correctly")
 RULE = ("case = entry path {response, discovery reply, trap listener} x base datagram x mutation {bit i, truncation at n, header octet "
-        "o := v, the same on the plaintext scoped PDU of an authenticated / encrypted message, raw bytes, generated TLV tree incl. wide flat sequences of up to 20000 tiny elements in every frame position}; oracle "
+        "o := v, the same on the plaintext scoped PDU of an authenticated / encrypted message, raw bytes, generated TLV tree incl. wide flat sequences of up to 20000 tiny elements in every frame position, Response / Report / discovery Report whose integer fields (request-id, error-status, error-index, boots, time, counter) have any width and value} + a peer that answers EVERY request of one call the same way (authentic notInTimeWindow report after a restart each time, one recorded report replayed, the first response replayed, unknownEngineID for ever: the call must end within 40 datagrams); oracle "
         "budget: CPU <= 2 s + 100 us x len, resident-set growth <= 48 MiB + 1024 x len; non-trivial = the mutant is rejected (an "
         "exception) or differs from the base in a header octet; distinct = (exception type, innermost puresnmp / x690 frame) "
         "buckets are reported, distinct count = distinct mutants")
@@ -163,6 +163,17 @@ def mutate(data, mut):
         body = vber.enc_scoped_pdu(bytes.fromhex(f["engine"]), b"", vber.enc_pdu(vber.PDU_REPORT, 0x6553F100, 0, 0, [
             (vagent.OID_UNKNOWN_ENGINE, vber.T_COUNTER, bytes.fromhex(f["counter"]))]))
         return vber.enc_v3_message(0x6553F100, 65507, 0, 3, usm, body)
+    if k == "pdu_fields":
+        # a Response / Report that is well-formed except that request-id, error-status and error-index are arbitrary
+        # INTEGERs (any width, sign, size) in front of 0..3 ordinary bindings
+        f = mut[1]
+        vbl = b"".join(vber.enc_varbind(SC[:-1] + (i,), vber.T_OCTETS, b"v%d" % i) for i in range(f["nvb"]))
+        pdu = vber.tlv(f["tag"], vber.tlv(vber.T_INT, bytes.fromhex(f["rid"])) + vber.tlv(vber.T_INT, bytes.fromhex(f["es"]))
+                       + vber.tlv(vber.T_INT, bytes.fromhex(f["ei"])) + vber.tlv(vber.T_SEQ, vbl))
+        if f["v"] in (0, 1):
+            return vber.enc_community_message(f["v"], b"public", pdu)
+        usm = vber.enc_usm_params(b"\x80\x00\x1f\x88\x80verif-agent", 3, 1000, b"", b"", b"")
+        return vber.enc_v3_message(0x6553F100, 65507, 0, 3, usm, vber.enc_scoped_pdu(b"\x80\x00\x1f\x88\x80verif-agent", b"", pdu))
     if k == "raw":
         return bytes.fromhex(mut[1])
     if k == "tree":
@@ -368,7 +379,94 @@ def deliver(base, mutant, use_guard=True):
     return info
 
 
+STUBBORN_CAP = 40
+
+
+def run_stubborn(case) -> Result:
+    """a peer that answers EVERY request of one API call in the same unhelpful way: the call must still end, after a number
+    of datagrams that does not depend on the peer's patience"""
+    _, pname, what, op = case["base"]
+    proto = PROTOS[pname]
+    classes = ["path=stubborn", "proto=" + pname, "stubborn=" + what, "op=" + op]
+    agent, client = vworld.make_world(proto, dict(DB), request_cap=None)
+    st8 = dict(n=0, first=None)
+
+    async def sender(endpoint, data, timeout=None, retries=None, loop=None):
+        st8["n"] += 1
+        if st8["n"] > STUBBORN_CAP:
+            raise vagent.CapExceeded("more than %d datagrams" % STUBBORN_CAP)
+        probe = vber.parse_message(bytes(data))
+        is_disco = probe["version"] == 3 and not probe.get("user") and not probe.get("engine_id")
+        if is_disco:
+            return agent.handle_or_timeout(bytes(data))
+        if what == "reboot_each":
+            agent.reboot()                  # always one restart ahead of what the client last discovered
+            return agent.handle_or_timeout(bytes(data))
+        if what == "replay_first_report":
+            if st8["first"] is None:
+                agent.reboot()
+                st8["first"] = agent.handle_or_timeout(bytes(data))
+            return st8["first"]             # the recorded (authentic) notInTimeWindow report, verbatim
+        if what == "same_response":
+            if st8["first"] is None:
+                st8["first"] = agent.handle_or_timeout(bytes(data))
+            return st8["first"]             # the first authentic response, whatever is asked later
+        if what == "other_engine_each":
+            agent.engine_id = agent.engine_id[:-1] + bytes([(agent.engine_id[-1] + 1) % 256])
+            return agent.handle_or_timeout(bytes(data))     # unknownEngineID report for ever
+        raise ValueError(what)
+
+    client.sender = sender
+    O = vworld.OID
+
+    async def go():
+        if op == "get":
+            return await client.get(O(SC))
+        if op == "set":
+            return await client.set(O(SC), vworld.make_value(vber.T_OCTETS, b"x"))
+        if op == "walk":
+            return [vb async for vb in client.walk(O(SC[:-2]))]
+        if op == "walk_warn":
+            return [vb async for vb in client.walk(O(SC[:-2]), errors="warn")]
+        if op == "bulkwalk":
+            return [vb async for vb in client.bulkwalk([O(SC[:-2])], bulk_size=3)]
+        raise ValueError(op)
+
+    vsandbox.install_guard()
+    outcome = "ok"
+    try:
+        with vclock.fixed(1_700_000_000, [0.25]), vsandbox.cpu_budget(20):
+            try:
+                vworld.run(go())
+            except vagent.CapExceeded:
+                outcome = "cap"
+            except RecursionError:
+                outcome = "recursion"
+            except Exception as e:  # noqa
+                outcome = "exc:" + type(e).__name__
+    except vsandbox.HangDetected:
+        vworld._LOOP = None
+        outcome = "hang"
+    classes.append("outcome=" + outcome.split(":")[0])
+    head = "%s %s against a peer that answers every request with %s" % (pname, op, what)
+    if outcome in ("cap", "hang", "recursion"):
+        return Result("%s: the call did not end (%s after %d datagrams; cap %d)" % (head, outcome, st8["n"], STUBBORN_CAP), True, classes)
+    return Result(None, True, classes, observations={"max_datagrams_against_stubborn_peer": st8["n"]})
+
+
+class _Stubborn:
+    def __iter__(self):
+        for pname in ("v3a", "v3p", "v3n", "v2c"):
+            for what in ("reboot_each", "replay_first_report", "same_response", "other_engine_each"):
+                if pname in ("v2c", "v3n") and what != "same_response":
+                    continue
+                for op in ("get", "set", "walk", "walk_warn", "bulkwalk"):
+                    yield dict(base=["stubborn", pname, what, op], mut=["stubborn"])
+
+
 def run_case(case, use_guard=True) -> Result:
+    if case["mut"][0] == "stubborn":
+        return run_stubborn(case)
     if case["mut"][0] == "history":
         import vrunner as _vr
 
@@ -494,7 +592,17 @@ def tree(depth=0):
 @st.composite
 def generated(draw, tier):
     base = draw(st.sampled_from(BASES(tier)))
-    kind = draw(st.sampled_from(["raw", "tree", "tree", "msgtree", "disco_fields"]))
+    kind = draw(st.sampled_from(["raw", "tree", "tree", "msgtree", "disco_fields", "pdu_fields"]))
+    if kind == "pdu_fields":
+        wide = st.one_of(st.sampled_from([b"\x00", b"\x01", b"\x02", b"\x05", b"\x12", b"\xff", b"\x80"]),
+                         st.binary(min_size=1, max_size=4), st.binary(min_size=5, max_size=12),
+                         st.sampled_from([b"\x00\xc0\x00\x00", b"\x7f\xff\xff\xff", b"\x01\x00\x00\x00", b"\x00\x10\x00\x00",
+                                          b"\x7f" + b"\xff" * 7, b"\x00\xff\xff\xff\xff", b"\x00\x01\x00\x00\x00\x00"]))
+        pbase = draw(st.sampled_from([b for b in BASES(tier) if b[0] in ("disco", "response")]))
+        v = {"v1": 0, "v2c": 1}.get(pbase[1], 3)
+        return dict(base=list(pbase), mut=["pdu_fields", dict(v=v, tag=draw(st.sampled_from([0xA2, 0xA2, 0xA8])),
+                                                              rid=draw(st.one_of(st.just(b"\x65\x53\xf1\x00"), wide)).hex(),
+                                                              es=draw(wide).hex(), ei=draw(wide).hex(), nvb=draw(st.integers(0, 3)))])
     if kind == "disco_fields":
         # a discovery Report that is well-formed except that its integers have arbitrary width / sign / size
         big = st.one_of(st.binary(min_size=1, max_size=4), st.binary(min_size=5, max_size=16),
@@ -608,7 +716,8 @@ def history_unit(check, stats, *, label, known_ids=(), n=150, size=20000):
 
 
 def units(tier, seed):
-    us = [Unit("history", history_unit, label="history", n=150 if tier == "quick" else 600)]
+    us = [Unit("history", history_unit, label="history", n=150 if tier == "quick" else 600),
+          Unit("stubborn", enumeration_unit, cases=_Stubborn(), label="stubborn", exhaustive=False)]
     if tier == "thorough":
         import vfuzz
 
